@@ -36,6 +36,87 @@ def make_theory(rng, kind):
     return th, cand, pool, obs
 
 
+def loop_stream(rep, rng, quick):
+    """the parameter bookkeeping of predict(uncertainty=True) versus Model/UncLoop.lean: an observable that records the
+    parameter dictionary it sees at every call (and raises at a chosen one) is evaluated through the real predict; the
+    sequence of dictionaries, the dictionary left behind and the outcome are compared bit for bit with the model"""
+    import gepard as g
+    lines, meta = [], []
+    for c in range(60 if quick else 1500):
+        kind = rng.choice(['KM09', 'adhoc'])
+        th, cand, pool, _ = make_theory(rng, kind)
+        pt = rng.choice(pool)
+        th._fix_parameters('ALL')
+        for k in th.parameters:
+            th.parameters_fixed[k] = True
+        free = rng.sample(cand, rng.randint(1, min(4, len(cand))))
+        th._release_parameters(*free)
+        pars = th.free_parameters()
+        errs = {p: 1e-3 * (abs(th.parameters[p]) + 0.1) * rng.uniform(0.5, 2) for p in pars}
+        missing = None
+        if rng.random() < 0.15:
+            missing = rng.choice(pars)          # parameters_errors[p] raises KeyError
+        th.parameters_errors = {p: e for p, e in errs.items() if p != missing}
+        th.covariance = {}
+        # the recording observable; raises when parameter q has the value `target`
+        q, target = '-', None
+        r = rng.random()
+        if r < 0.45:
+            q = rng.choice(pars)
+            target = th.parameters[q] + errs[q] / 2. if rng.random() < 0.5 else th.parameters[q] - errs[q] / 2.
+        seen = []
+
+        def OBS(pt_, th=th, seen=seen, q=q, target=target):
+            seen.append(list(th.parameters.values()))
+            if target is not None and th.parameters[q] == target:
+                raise ValueError('boom')
+            return 1.0
+        th.OBS = OBS
+        names = list(th.parameters.keys())
+        before = list(th.parameters.values())
+        try:
+            th.predict(pt, observable='OBS', uncertainty=True)
+            out = 'ok'
+        except ValueError as e:
+            out = 'exc:boom' if str(e) == 'boom' else 'exc:ValueError'
+        except KeyError:
+            out = 'exc:KeyError'
+        except Exception as e:
+            out = 'exc:' + type(e).__name__
+        after = list(th.parameters.values())
+        same_keys = list(th.parameters.keys()) == names
+        lines.append(' '.join(['c18.loop', q, f2hex(target) if target is not None else '-', 'N'] + names + ['V'] +
+                              [f2hex(float(v)) for v in before] + ['P'] + pars + ['H'] +
+                              ['N' if p == missing else f2hex(errs[p]) for p in pars]))
+        meta.append(dict(kind=kind, free=pars, raise_at=(q, target), missing_error=missing, seen=seen, after=after,
+                         out=out, same_keys=same_keys, before=before))
+        rep.hist('loop.outcome', out)
+    outs = common.run_driver(lines)
+    for line, m, o in zip(lines, meta, outs):
+        rep.case('loop', line[:300], sample=dict(theory=m['kind'], free=m['free'], outcome=m['out']) if m is meta[0] else None)
+        if o == 'bad-op':
+            rep.violation('loop/bad-op', 'driver rejected a protocol line', dict(line=line[:500]), found_input=False)
+            continue
+        body, tail = o.rsplit(' = ', 1)
+        fin = tail.split()
+        mout = fin[-1]
+        mfinal = fin[:-1]
+        mtrace = [d.split() for d in body.split(' | ')] if body.strip() else []
+        # the real call evaluates the observable once more, at the restored parameters, for the central value
+        seen = [[f2hex(float(v)) for v in d] for d in m['seen']]
+        expect = mtrace + ([mfinal] if mout == 'ok' else [])
+        after = [f2hex(float(v)) for v in m['after']]
+        restored = after == [f2hex(float(v)) for v in m['before']] and m['same_keys']
+        if not restored:
+            rep.violation('loop/params-not-restored', 'predict(uncertainty=True) with free parameters %s left theory.parameters changed '
+                          '(observable %s)' % (m['free'], 'raising at %s=%r' % m['raise_at'] if m['raise_at'][1] is not None else 'returning'),
+                          dict(free=m['free'], raise_at=str(m['raise_at']), missing_error=m['missing_error'], outcome=m['out']))
+        elif seen != expect or after != mfinal or m['out'] != mout:
+            rep.violation('loop/model', 'the dictionaries seen by the observable / left behind / the outcome differ from Model/UncLoop: '
+                          'code %d evaluations, outcome %s; model %d, %s' % (len(seen), m['out'], len(expect), mout),
+                          dict(free=m['free'], raise_at=str(m['raise_at']), missing_error=m['missing_error']), found_input=False)
+
+
 def run(rep):
     import gepard as g
     rng = rep.rng
@@ -158,6 +239,7 @@ def run(rep):
             rep.hist('mode', mode)
             rep.hist('nfree', len(pars))
             rep.hist('obs', obs)
+    loop_stream(rep, rng, quick)
     outs = common.run_driver(lines)
     for line, m, o in zip(lines, meta, outs):
         val, unc = [hex2f(x) for x in o.split()]
